@@ -452,7 +452,7 @@ func (mw *MW) Exec(i int, a world.Act) {
 			o.Ev = ev
 		}
 		mw.stepLine(i, a, o)
-	case "ConnScan", "ConnBatches", "ConnValsets", "ConnRestart":
+	case "ConnScan", "ConnBatches", "ConnValsets", "ConnRestart", "ConnCrashScan":
 		c := mw.Conns[a.S("by")]
 		if c == nil {
 			mw.Infra = "no connector for " + a.S("by")
@@ -478,6 +478,17 @@ func (mw *MW) Exec(i int, a world.Act) {
 				connmain.RelayBatches(c.Ctx)
 			case "ConnValsets":
 				connmain.RelayValsets(c.Ctx)
+			case "ConnCrashScan":
+				// the process dies after the hub has committed the claims of a pass and before the cursor is persisted:
+				// the pass runs, its cursor is lost (memory) / never written (the status file is put back)
+				saved, rerr := os.ReadFile(c.StatusFile)
+				_ = connmain.RelayMinterEvents(c.Ctx)
+				if rerr == nil {
+					os.WriteFile(c.StatusFile, saved, 0o644)
+				} else {
+					os.Remove(c.StatusFile)
+				}
+				c.Ctx.LoadStatus(c.StatusFile, connmain.Cfg().Minter) // (the process is down until a ConnRestart)
 			case "ConnRestart":
 				// the process starts again: the cursor comes from the status file, the hub tells the last event it saw from us
 				c.Ctx.LoadStatus(c.StatusFile, connmain.Cfg().Minter)
